@@ -320,7 +320,11 @@ impl CompressedUsedLeafsIndexes {
     ) -> Result<(), ()> {
         let total_tree_height: u32 = tree_heights.iter().sum::<u8>().into();
 
-        if self.count >= (2u64.pow(total_tree_height) - 1) {
+        // Keys with 2^64 or more leafs can not be exhausted before the counter itself is.
+        let last_count = 2u64
+            .checked_pow(total_tree_height)
+            .map_or(u64::MAX, |total_lmots_keys| total_lmots_keys - 1);
+        if self.count >= last_count {
             return Err(());
         }
 
